@@ -137,6 +137,26 @@ func judge(c *Ctx, src string, std bool, origin string, extra map[string]string)
 var reproducers = []struct{ sig, src string }{
 	{"const-group-type-carried", "package main\n\nconst (\n\tn uint8 = 1\n\te = 1 << 63\n)\n\nfunc main() {\n\t_ = n\n\t_ = uint64(e)\n}\n"},
 	{"float-div-const-zero", "package main\n\nfunc main() {\n\tf := 1.5\n\t_ = f / 0.0\n}\n"},
+	{"typed-const-keeps-untyped-repr", "package main\n\nfunc main() {\n\tconst c int = 2.0\n\t_ = c % 3\n}\n"},
+	{"const-conversion-keeps-int-repr", "package main\n\nfunc main() {\n\t_ = float64(3) % 2\n}\n"},
+	{"float-const-to-unsigned-not-integral", "package main\n\nfunc main() {\n\tvar x uint8 = 0.5 + 1.0\n\t_ = x\n}\n"},
+}
+
+// regressions: inputs of the defects repaired by fix commits of this work
+// package (and a few fixed near misses); they are judged like any other
+// program on every run, in this order (the second one is only rejected when
+// the first one has polluted the universe constants).
+var regressions = []string{
+	"package main\n\ntype T3 bool\n\nfunc main() {\n\tvar x T3 = true\n\t_ = x\n}\n",
+	"package main\n\nfunc main() {\n\t_ = (true != false)\n\t_ = true && false\n}\n",
+	"package main\n\nfunc f() int { return 1 }\n\nfunc main() {\n\tx := f(), 1\n\t_ = x\n}\n",
+	"package main\n\nfunc main() {\n\tx := int(1), 1\n\t_ = x\n}\n",
+	"package main\n\nfunc main() {\n\tfor nil {\n\t}\n}\n",
+	"package main\n\nfunc main() {\n\tx, _ := 1, nil\n\t_ = x\n}\n",
+	"package main\n\ntype T3 bool\n\nfunc main() {\n\tvar x T3 = T3(true) && true\n\t_ = x\n}\n",
+	"package main\n\ntype T3 bool\n\nfunc main() {\n\tvar x bool = false || T3(false)\n\t_ = x\n}\n",
+	"package main\n\nfunc main() {\n\tx := 2.0 << 5\n\t_ = ^x\n}\n",
+	"package main\n\nfunc main() {\n\tx := 2.0 << 5\n\tvar y float64 = x\n\t_ = y\n}\n",
 }
 
 func init() {
@@ -191,6 +211,36 @@ func init() {
 		})
 	})
 
+	// in-Coq cross-check of the extraction: a Coq file that evaluates tc with
+	// vm_compute on a sample of the correspondence cases and lists the cases
+	// whose verdict differs from scriggo.Build's
+	Register("C03-coqcases", func(c *Ctx) {
+		fmt.Fprintf(c.Out, "From Verif Require Import MiniGoM.\n")
+		fmt.Fprintf(c.Out, "Definition cases : list (N * program * bool) := [\n")
+		i := 0
+		seen := map[string]bool{}
+		generated(c, c.N, func(gc genCase) {
+			term := gc.prog.Term()
+			if seen[term] {
+				return
+			}
+			seen[term] = true
+			r := scriggoBuild(gc.prog.Go(), nativePkgs)
+			if r.Verdict != "accept" && r.Verdict != "reject" {
+				return
+			}
+			if i > 0 {
+				fmt.Fprintf(c.Out, ";\n")
+			}
+			fmt.Fprintf(c.Out, " (%d%%N, %s, %v)", i, gc.prog.Coq(), r.Verdict == "accept")
+			i++
+		})
+		fmt.Fprintf(c.Out, "].\n")
+		fmt.Fprintf(c.Out, "Definition mismatches := Eval vm_compute in map (fun c => fst (fst c)) (filter (fun c => negb (Bool.eqb (tc (snd (fst c))) (snd c))) cases).\n")
+		fmt.Fprintf(c.Out, "Definition checked := Eval vm_compute in length cases.\nPrint mismatches.\nPrint checked.\n")
+		c.Add("cases", i)
+	})
+
 	Register("C03-sweep", func(c *Ctx) {
 		if in := c.ReplayInput(); in != nil {
 			src, _ := in["src"].(string)
@@ -205,6 +255,9 @@ func init() {
 			if (r.Verdict == "accept") != ok || (r.Verdict != "accept" && r.Verdict != "reject") {
 				c.Fail(rp.sig, map[string]string{"src": rp.src, "scriggo": r.Verdict, "scriggo_msg": r.Msg, "gotypes_msg": goMsg, "origin": "reproducer"})
 			}
+		}
+		for i, src := range regressions {
+			judge(c, src, false, fmt.Sprintf("regression:%d", i), nil)
 		}
 		perKind := map[string][2]int{}
 		seen := map[string]bool{}
